@@ -144,7 +144,7 @@ func (e *Env) ruleAttrs(el string) []string {
 	return out
 }
 
-var relPool = []string{"opener", "OPENER", "follow", "referrer", "no opener", "noopener-x", "xnoopener", "nofollo", "tag\u00a0", "author\u3000", "me\x0b", "nofollow", "noopener", "noreferrer", "nofollow noopener", "NOFOLLOW", "xnofollowx", "noopenerx", "author", "a b", "nofollow\tnoreferrer", "nofollow\nx", "nofollow nofollow", " ", "", "external nofollow noopener noreferrer", "NoOpener", "noreferrernofollow"}
+var relPool = []string{"tag\fnofollow", "a\rb nofollow", "x\fy", "nofollow\f", "opener", "OPENER", "follow", "referrer", "no opener", "noopener-x", "xnoopener", "nofollo", "tag\u00a0", "author\u3000", "me\x0b", "nofollow", "noopener", "noreferrer", "nofollow noopener", "NOFOLLOW", "xnofollowx", "noopenerx", "author", "a b", "nofollow\tnoreferrer", "nofollow\nx", "nofollow nofollow", " ", "", "external nofollow noopener noreferrer", "NoOpener", "noreferrernofollow"}
 var targetPool = []string{"_blank", "_self", "_BLANK", "_top", "frame1", "", " _blank", "_blank "}
 
 // StyleKnown lists (property, sample values) for the element from the shadow rules.
